@@ -364,6 +364,11 @@ func (cc *connectUnaryClientConn) Spec() Spec {
 }
 
 func (cc *connectUnaryClientConn) Send(msg any) error {
+	if err := cc.duplexCall.ctx.Err(); err != nil {
+		// Whatever else is wrong with this message, the call is over.
+		cc.duplexCall.SetError(err)
+		return wrapIfContextError(err)
+	}
 	if err := cc.marshaler.Marshal(msg); err != nil {
 		// The request body is the message. If we end the request cleanly now,
 		// the handler reads an empty body - a valid zero message - and runs
@@ -486,6 +491,11 @@ func (cc *connectStreamingClientConn) Send(msg any) error {
 	// response side would otherwise wait for a request that is never made -
 	// forever, since nothing watches the context of a call that hasn't begun.
 	cc.duplexCall.ensureRequestMade()
+	if err := cc.duplexCall.ctx.Err(); err != nil {
+		// Whatever else is wrong with this message, the call is over.
+		cc.duplexCall.SetError(err)
+		return wrapIfContextError(err)
+	}
 	if err := cc.marshaler.Marshal(msg); err != nil {
 		return err
 	}
